@@ -884,7 +884,7 @@ func (p *Parser) ParseSwitchStatement() (*ast.SwitchStatement, error) {
 			if clause.Test == nil || o.Test == nil || clause.Test.Operator != o.Test.Operator {
 				continue
 			}
-			if clause.Test.Right.String() == o.Test.Right.String() {
+			if caseLabelKey(clause.Test.Right) == caseLabelKey(o.Test.Right) {
 				return nil, errors.WithStack(DuplicateCase(clause.Test.Meta))
 			}
 		}
@@ -946,6 +946,16 @@ func (p *Parser) ParseFallthroughStatement() (*ast.FallthroughStatement, error) 
 	stmt.Trailing = p.Trailing()
 
 	return stmt, nil
+}
+
+// caseLabelKey is what two case labels are compared by when looking for duplicates.
+// A string label is identified by its value: String() would also render the comments
+// attached to the label, so `case "a" /* c */:` would not be a duplicate of `case "a":`.
+func caseLabelKey(e ast.Expression) string {
+	if s, ok := e.(*ast.String); ok {
+		return s.Value
+	}
+	return e.String()
 }
 
 func (p *Parser) ParseCaseStatement() (*ast.CaseStatement, error) {
